@@ -252,8 +252,15 @@ REMOVERS = ("remove_node", "remove_edge", "remove_nodes_from", "remove_edges_fro
 
 
 def t2(ck: Check, gm: GrowthModel) -> None:
+    all_fields = ck.prog.repo.typeddict_keys("NodeData")
     for fm in ck.prog.models():
         for e in fm.field_events():
+            if e.field == "*" and e.kind == "store":
+                flds = fm.dynamic_fields(e, all_fields)
+                if flds is None or "expanded" in flds:
+                    ck.ob("T2", fm, e.stmt, is_true(e.value),
+                          f"store under a run-time key that may be `expanded` with value `{text(e.value) if e.value is not None else '?'}`")
+                continue
             if e.field != "expanded":
                 continue
             if e.kind == "store":
